@@ -216,6 +216,7 @@ class Engine:
         if isinstance(s, LIST):
             arr = self.heap_arr(st, k + "#arr", z3.ArraySort(z3.IntSort(), s.elem.z3sort()))
             ln = self.heap_arr(st, k + "#len", z3.IntSort())
+            st.assume(ln[obj.ref] >= 0)        # type invariant of a Python list held in a field: every value ever stored has len >= 0
             return VList(s.elem, arr[obj.ref], ln[obj.ref], is_str=s.is_str)
         if isinstance(s, DICT):
             dom = self.heap_arr(st, k + "#dom", z3.ArraySort(s.key.z3sort(), z3.BoolSort()))
@@ -704,6 +705,11 @@ class Engine:
             cc = self.resolve_contract(call, st, quiet=True)
             if cc is not None:
                 mod |= set(cc.modifies)
+        # model objects (files, ...) used in the body declare which heap fields their operations modify
+        for s in body_stmts:
+            for n in ast.walk(s):
+                if isinstance(n, ast.Name) and isinstance(st.env.get(n.id), VModel):
+                    mod |= set(getattr(st.env[n.id], "modifies_fields", ()))
         for k in sorted(mod):
             self.havoc_field(st, k)
         return names, mod
@@ -818,8 +824,29 @@ class Engine:
     def stmt_For(self, node, st):
         if node.orelse:
             raise Unsupported("for-else")
-        o, spec = self.loop_spec(node)
         it = self.eval(node.iter, st)
+        if isinstance(it, VTuple):
+            # a loop over a fixed-length tuple/constant collection is unrolled: no invariant needed
+            yield from self.unroll(node, it.items, 0, st)
+            return
+        if isinstance(it, VCount):
+            o, spec = self.loop_spec(node)
+            idx = spec.get("index", "__i%d" % o)
+            st.env[idx] = z3.IntVal(0)
+            start, step = to_z3(it.start), to_z3(it.step)
+
+            def implicit(s):
+                return [("index", s.env[idx] >= 0)]
+
+            def pre_body(s):
+                self.assign(node.target, start + s.env[idx] * step, s, True)
+
+            def post_body(s):
+                s.env[idx] = s.env[idx] + 1
+            yield from self.run_loop(st, o, spec, node.body, guard=lambda s: z3.BoolVal(True), pre_body=pre_body, post_body=post_body,
+                                     extra_havoc=(idx,), auto_variant=None, implicit_inv=implicit)
+            return
+        o, spec = self.loop_spec(node)
         idx = spec.get("index", "__i%d" % o)
         if isinstance(it, VRange):
             if not (isinstance(it.step, int) and it.step == 1):
@@ -861,6 +888,19 @@ class Engine:
         yield from self.run_loop(st, o, spec, node.body, guard=lambda s: s.env[idx] < seqlen, pre_body=pre_body,
                                  post_body=post_body, extra_havoc=(idx, ), auto_variant=lambda s: seqlen - s.env[idx],
                                  implicit_inv=implicit)
+
+    def unroll(self, node, items, k, st):
+        if k >= len(items):
+            yield st, (Flow.NEXT,)
+            return
+        self.assign(node.target, items[k], st, True)
+        for s1, flow in self.exec_block(node.body, st):
+            if flow[0] in (Flow.NEXT, Flow.CONTINUE):
+                yield from self.unroll(node, items, k + 1, s1)
+            elif flow[0] == Flow.BREAK:
+                yield s1, (Flow.NEXT,)
+            else:
+                yield s1, flow
 
     def iter_protocol(self, it, st):
         """(length, getter(index)->value) of an indexable iterable captured at loop entry."""
@@ -1166,6 +1206,10 @@ class Engine:
             self.oblige(st, "noexc", ok, "TypeError-None-order")
             if a is NONE or b is NONE:
                 return z3.BoolVal(False)
+        if isinstance(a, VRef) and isinstance(b, VRef) and a.cls == b.cls and a.cls in getattr(self.reg, "order_keys", {}):
+            # objects ordered by a key field (declared in the contract file, e.g. variants by position)
+            fld = self.reg.order_keys[a.cls]
+            a, b = self.load_field(st, a, fld), self.load_field(st, b, fld)
         if isinstance(a, VTuple) and isinstance(b, VTuple):
             return self.tuple_order(op, a, b, st)
         if isinstance(a, VList) and isinstance(b, VList):
